@@ -200,7 +200,9 @@ HdfAll ==
         a \in BOOLEAN, b \in 1..MaxBins, p \in 1..MaxPatches, m \in MemberSets,
         pt \in Patterns, r \in Rots, s \in SWClasses }
 (* quick tier: the sum-of-weights classes are crossed with one pattern only *)
-HdfCases == { o \in HdfAll : Rich \/ o.sw = "pos" \/ o.pat = "dense" }
+(* thorough tier: all classes with rot = 1, the other rotations with "pos"   *)
+HdfCases == { o \in HdfAll : IF Rich THEN (o.rot = 1 \/ o.sw = "pos")
+                                     ELSE (o.sw = "pos" \/ o.pat = "dense") }
 
 HdfPrior ==
     { [auto |-> FALSE, nb |-> MaxBins, np |-> MaxPatches, mem |-> Members,
@@ -283,7 +285,8 @@ CfgCreated ==
 
 CfgCases ==
       { o \in CfgCreated :
-          Rich \/ (o.wt = WtFor(o.scales) /\ o.mw = (IF o.zr = 1 THEN "none" ELSE "set")) }
+          IF Rich THEN (o.mw = "none" \/ o.wt = "both") /\ (o.scales # "intlike" \/ o.zr = 1)
+                  ELSE (o.wt = WtFor(o.scales) /\ o.mw = (IF o.zr = 1 THEN "none" ELSE "set")) }
     \cup  \* cosmologies that cannot be written: the write must be rejected
       { [src |-> "create", delta |-> "-", method |-> m, closed |-> cl, unit |-> "kpc",
          scales |-> "single", zr |-> 1, nb |-> n, wt |-> "none", cosmo |-> c, mw |-> "none"] :
@@ -610,10 +613,13 @@ Got == IF Kind = "cfg" THEN back.y ELSE back
 (* outcomes the property leaves open: a write that is refused loudly       *)
 (* (cosmology without a YAML form) and a source object that could not be   *)
 (* built at all; everything else must read back equal                      *)
-RoundTrip ==
-    Done => \/ outcome = "ok" /\ Got = Expected
-            \/ outcome = "rejected_write" /\ Kind = "cfg" /\ ~Serialisable(mem.cosmo)
-            \/ outcome = "source_rejected" /\ Kind = "cfg" /\ Exp.src = "modify"
+
+RoundTripHolds ==
+    \/ outcome = "ok" /\ Got = Expected
+    \/ outcome = "rejected_write" /\ Kind = "cfg" /\ ~Serialisable(mem.cosmo)
+    \/ outcome = "source_rejected" /\ Kind = "cfg" /\ Exp.src = "modify"
+
+RoundTrip == Done => RoundTripHolds
 
 PCs == {"begin", "read", "done", "hdf_write", "hdf_load", "cfg_modify", "cfg_todict",
         "cfg_dump", "cfg_fromdict", "txt_smp", "txt_cov", "txt_loadsmp", "txt_construct",
@@ -634,5 +640,5 @@ Precision == IF Kind = "txt" THEN [d |-> Decimals(Exp.dcls), s |-> Decimals(Exp.
 (* real arrays from it - the patterns are defined here only)               *)
 Contents == IF Kind = "hdf" THEN [n \in 1..Len(objs) |-> HdfExpected(objs[n])] ELSE Nil
 PrintDone == Done => PrintT(<<"case", objs, Projection, IF outcome = "ok" THEN Got ELSE Nil,
-                             outcome, Precision, Contents>>)
+                             outcome, Precision, Contents, RoundTripHolds>>)
 =============================================================================
